@@ -431,6 +431,100 @@ theorem distribute_lend {e : Env} {s s3 : St} (hk : e.kind = .lend) (h : distrib
             · simp only; rw [d4, d3, d2, d1]; simp
             · intro a; simp only; rw [d4, d3, d2, d1]; simp
 
+/-- the vault close in detail (`bid.go:89-101,161-190`): `target − penalty` is burned, the keeper of a keeper-initiated liquidation gets
+`⌊incentive·penalty⌋`, the rest of the penalty goes to the collector and is added to its net-fee record; nothing else moves -/
+theorem distribute_vault {e : Env} {s s3 : St} (hk : e.kind = .vault) (h : distribute e s = .ok s3) :
+    0 ≤ cutOf e e.isKeeper ∧ cutOf e e.isKeeper ≤ e.fee ∧ 0 ≤ e.target - e.fee ∧
+    s3.burned = s.burned + (e.target - e.fee) ∧
+    s3.bank.get .keeper .debt = s.bank.get .keeper .debt + cutOf e e.isKeeper ∧
+    s3.bank.get .collector .debt = s.bank.get .collector .debt + (e.fee - cutOf e e.isKeeper) ∧
+    s3.netFees = s.netFees + (e.fee - cutOf e e.isKeeper) ∧
+    s3.bank.get .auction .debt = s.bank.get .auction .debt - e.target ∧
+    s3.bank.get .initiator .debt = s.bank.get .initiator .debt ∧ s3.bank.get .pool .debt = s.bank.get .pool .debt ∧
+    s3.bank.get .lendres .debt = s.bank.get .lendres .debt ∧ s3.booked = s.booked ∧ s3.extFees = s.extFees ∧
+    (∀ a, s3.bank.get a .coll = s.bank.get a .coll) := by
+  unfold distribute at h
+  split at h
+  · cases h
+  · rename_i htf
+    rw [hk] at h
+    simp only [] at h
+    split at h
+    · cases h
+    · rename_i hpen
+      split at h
+      · cases h
+      · rename_i b1 hb1
+        split at h
+        · cases h
+        · rename_i b2 hb2
+          split at h
+          · cases h
+          · rename_i b3 hb3
+            cases h
+            have d2 := sendPos_ok hb2 (by decide)
+            have d3 := sendPos_ok hb3 (by decide)
+            have hcut : 0 ≤ cutOf e e.isKeeper := by unfold cutOf; split <;> omega
+            have d1 : ∀ a' d', b1.get a' d' = s.bank.get a' d' - (if a' = Acct.auction ∧ d' = Denom.debt then e.target - e.fee else 0) := by
+              split at hb1
+              · exact (burn_ok hb1).2
+              · rename_i hz
+                cases hb1
+                intro a' d'
+                have : e.target - e.fee = 0 := by omega
+                rw [this]; simp
+            have hp2 : 0 ≤ e.fee - cutOf e e.isKeeper := by omega
+            refine ⟨hcut, by omega, by omega, rfl, ?_, ?_, rfl, ?_, ?_, ?_, ?_, rfl, rfl, ?_⟩
+            · simp only; rw [d3, d2, d1]; simp [posPart_of_nonneg hcut]
+            · simp only; rw [d3, d2, d1]; simp [posPart_of_nonneg hp2]
+            · simp only; rw [d3, d2, d1]; simp [posPart_of_nonneg hcut, posPart_of_nonneg hp2]; omega
+            · simp only; rw [d3, d2, d1]; simp
+            · simp only; rw [d3, d2, d1]; simp
+            · simp only; rw [d3, d2, d1]; simp
+            · intro a; simp only; rw [d3, d2, d1]; simp
+
+/-- the external close in detail (`bid.go:122-158`): the external initiator gets `target − penalty`, the penalty STAYS in the module
+account and is booked as the module's own fee data; a non-zero keeper incentive makes the close impossible (the transfer to the
+empty keeper address panics), so an accepted close has none; nothing is burned, the collector gets nothing -/
+theorem distribute_external {e : Env} {s s3 : St} (hk : e.kind = .external) (h : distribute e s = .ok s3) :
+    cutOf e true = 0 ∧ 0 ≤ e.fee ∧ 0 ≤ e.target - e.fee ∧
+    s3.bank.get .initiator .debt = s.bank.get .initiator .debt + (e.target - e.fee) ∧
+    s3.bank.get .auction .debt = s.bank.get .auction .debt - (e.target - e.fee) ∧
+    s3.booked = s.booked + e.fee ∧ s3.extFees = s.extFees + e.fee ∧
+    s3.burned = s.burned ∧ s3.netFees = s.netFees ∧
+    s3.bank.get .collector .debt = s.bank.get .collector .debt ∧ s3.bank.get .keeper .debt = s.bank.get .keeper .debt ∧
+    s3.bank.get .pool .debt = s.bank.get .pool .debt ∧ s3.bank.get .lendres .debt = s.bank.get .lendres .debt ∧
+    (∀ a, s3.bank.get a .coll = s.bank.get a .coll) := by
+  unfold distribute at h
+  split at h
+  · cases h
+  · rename_i htf
+    rw [hk] at h
+    simp only [] at h
+    split at h
+    · cases h
+    · rename_i hpen
+      split at h
+      · cases h
+      · rename_i hinc
+        split at h
+        · cases h
+        · rename_i b hb
+          cases h
+          obtain ⟨_, _, d⟩ := send_ok hb (by decide)
+          have hcut : 0 ≤ cutOf e true := by unfold cutOf; split <;> omega
+          have hc0 : cutOf e true = 0 := by omega
+          refine ⟨hc0, by omega, by omega, ?_, ?_, ?_, ?_, rfl, rfl, ?_, ?_, ?_, ?_, ?_⟩
+          · simp only; rw [d]; simp
+          · simp only; rw [d]; simp
+          · simp only; omega
+          · simp only; omega
+          · simp only; rw [d]; simp
+          · simp only; rw [d]; simp
+          · simp only; rw [d]; simp
+          · simp only; rw [d]; simp
+          · intro a; simp only; rw [d]; simp
+
 /-! ### ledger and custody invariant -/
 
 structure Inv (e : Env) (s : St) : Prop where
@@ -696,15 +790,43 @@ theorem fill_inv {e : Env} {s s' : St} {dt : Int} {lbids : List LBid}
       · rename_i k
         exact fillLoop_inv hw hi ha hdt (hl k) h
 
-/-- well-formed operation: oracle values are unsigned, at most one limit bid per premium bucket -/
-def WfOp : Op → Prop
+/-- well-formed operation: oracle values are unsigned, at most one limit bid per premium bucket; a block under emergency shutdown
+belongs to these histories for lend- and externally initiated auctions (for a vault-initiated one `TriggerEsm` pays the
+proceeds out while the auction stays open — `trigger_esm_…` theorems) -/
+def WfOp (e : Env) : Op → Prop
   | .bid _ _ dt => 0 ≤ dt
   | .tick _ twaC _ twaD _ lbids => 0 ≤ twaC ∧ 0 ≤ twaD ∧ NoSharedPremium lbids
+  | .tickEsm _ twaC _ twaD _ lbids => 0 ≤ twaC ∧ 0 ≤ twaD ∧ NoSharedPremium lbids ∧ e.kind ≠ .vault
   | .reserve _ _ => True
   | .limit _ _ _ => True
 
-theorem step_inv {e : Env} {s : St} {op : Op} (hw : WfEnv e) (hi : Inv e s) (hop : WfOp op) : Inv e (step e s op) := by
+/-- under emergency shutdown the iterator leaves a non-vault auction alone past the end of its window and updates its price inside -/
+theorem tickIterEsm_inv {e : Env} {s : St} {now twaC twaD : Int} {actC actD : Bool}
+    (hw : WfEnv e) (hi : Inv e s) (htw : 0 ≤ twaC) (hk : e.kind ≠ .vault) :
+    Inv e (tickIterEsm e s now twaC actC twaD actD) := by
+  unfold tickIterEsm
+  split
+  · exact hi
+  · rename_i a ha
+    split
+    · split
+      · rename_i hkv; exact absurd hkv hk
+      · exact hi
+    · have := tickIter_inv (now := now) (twaD := twaD) (actC := actC) (actD := actD) hw hi htw
+      unfold tickIter at this
+      rw [ha] at this
+      exact this
+
+theorem step_inv {e : Env} {s : St} {op : Op} (hw : WfEnv e) (hi : Inv e s) (hop : WfOp e op) : Inv e (step e s op) := by
   cases op with
+  | tickEsm now twaC actC twaD actD lbids =>
+    obtain ⟨h1, h2, h3, h4⟩ := hop
+    simp only [step, orElse]
+    have hi1 := tickIterEsm_inv (now := now) (twaD := twaD) (actC := actC) (actD := actD) hw hi h1 h4
+    split
+    · rename_i s' hs'
+      exact fill_inv hw hi1 h2 h3 hs'
+    · exact hi1
   | bid who amt dt =>
     simp only [step, orElse]
     split
@@ -767,7 +889,7 @@ theorem step_inv {e : Env} {s : St} {op : Op} (hw : WfEnv e) (hi : Inv e s) (hop
           · simp; omega
       · exact hi
 
-theorem run_inv {e : Env} (hw : WfEnv e) (ops : List Op) (s : St) (hi : Inv e s) (hops : ∀ op ∈ ops, WfOp op) :
+theorem run_inv {e : Env} (hw : WfEnv e) (ops : List Op) (s : St) (hi : Inv e s) (hops : ∀ op ∈ ops, WfOp e op) :
     Inv e (run e s ops) := by
   induction ops generalizing s with
   | nil => exact hi
@@ -890,6 +1012,130 @@ theorem apply_moves {e : Env} {s s' : St} {a : Auc} {who : Nat} {p : Plan} {auto
               · simp only; rw [d2, p1, w5 _ _ (by simp) (by simp)]; simp [hn]
             · intro hf; exact absurd hf hcl
             · intro _; rfl
+/-- the shape of a CLOSING bid: reserve draw, payment, collateral to the bidder — then `distribute` on that intermediate state —
+then the unsold collateral to the owner.  Everything `distribute` speaks about is untouched before and after it. -/
+theorem apply_close_shape {e : Env} {s s' : St} {a : Auc} {who : Nat} {p : Plan} {auto : Bool}
+    (hp : PlanOK a p) (hcl : p.close = true) (h : apply e s a who p auto = .ok s') :
+    ∃ s2 s3, distribute e s2 = .ok s3 ∧
+      s2.burned = s.burned ∧ s2.netFees = s.netFees ∧ s2.extFees = s.extFees ∧ s2.booked = s.booked ∧
+      (∀ x d, x ≠ Acct.auction → x ≠ Acct.reserve → x ≠ Acct.bidder who → s2.bank.get x d = s.bank.get x d) ∧
+      (∀ x, x ≠ Acct.auction → x ≠ Acct.bidder who → s2.bank.get x .coll = s.bank.get x .coll) ∧
+      s'.burned = s3.burned ∧ s'.netFees = s3.netFees ∧ s'.extFees = s3.extFees ∧ s'.booked = s3.booked ∧
+      (∀ x d, d ≠ Denom.coll → s'.bank.get x d = s3.bank.get x d) ∧
+      (∀ x, x ≠ Acct.auction → x ≠ Acct.owner → s'.bank.get x .coll = s3.bank.get x .coll) := by
+  unfold apply at h
+  split at h
+  · cases h
+  · split at h
+    · cases h
+    · rename_i s1 hs1
+      have w : s1.burned = s.burned ∧ s1.booked = s.booked ∧ s1.netFees = s.netFees ∧ s1.extFees = s.extFees ∧
+          (∀ a' d', a' ≠ Acct.auction → a' ≠ Acct.reserve → s1.bank.get a' d' = s.bank.get a' d') := by
+        by_cases hc : p.clipped = true
+        · simp only [hc, if_true] at hs1
+          unfold withdrawReserve at hs1
+          split at hs1
+          · cases hs1
+          · split at hs1
+            · split at hs1
+              · rename_i b hb
+                cases hs1
+                have d := sendPos_ok hb (by decide)
+                refine ⟨rfl, rfl, rfl, rfl, ?_⟩
+                intro a' d' h1 h2
+                simp only; rw [d]; simp [h1, h2]
+              · cases hs1
+            · cases hs1
+              exact ⟨rfl, rfl, rfl, rfl, fun _ _ _ _ => rfl⟩
+        · simp only [hc, if_false, Bool.false_eq_true] at hs1
+          cases hs1
+          exact ⟨rfl, rfl, rfl, rfl, fun _ _ _ _ => rfl⟩
+      obtain ⟨w3, w4, w5, w6, w7⟩ := w
+      split at h
+      · cases h
+      · rename_i b1 hb1
+        have p1 : ∀ a' d', a' ≠ Acct.auction → a' ≠ Acct.bidder who → b1.get a' d' = s1.bank.get a' d' := by
+          intro a' d' h1 h2
+          by_cases hau : auto = true
+          · simp only [hau, if_true] at hb1
+            cases hb1; rfl
+          · simp only [hau, if_false, Bool.false_eq_true] at hb1
+            have d := sendPos_ok hb1 (by simp)
+            rw [d]; simp [h1, h2]
+        split at h
+        · cases h
+        · rename_i b2 hb2
+          have d2 := sendPos_ok hb2 (by simp)
+          simp only [hcl, if_true] at h
+          split at h
+          · cases h
+          · rename_i s3 hs3
+            split at h
+            · cases h
+            · rename_i b4 hb4
+              cases h
+              have d4 := sendPos_ok hb4 (by decide)
+              refine ⟨_, s3, hs3, w3, w5, w6, w4, ?_, ?_, rfl, rfl, rfl, rfl, ?_, ?_⟩
+              · intro x d h1 h2 h3
+                simp only; rw [d2, p1 x _ h1 h3, w7 x _ h1 h2]; simp [h1, h3]
+              · intro x h1 h3
+                by_cases h2 : x = Acct.reserve
+                · subst h2
+                  simp only; rw [d2, p1 _ _ h1 h3]; simp
+                  -- the reserve draw moves the debt denom only
+                  by_cases hc : p.clipped = true
+                  · simp only [hc, if_true] at hs1
+                    unfold withdrawReserve at hs1
+                    split at hs1
+                    · cases hs1
+                    · split at hs1
+                      · split at hs1
+                        · rename_i b hb
+                          cases hs1
+                          have d := sendPos_ok hb (by decide)
+                          simp only; rw [d]; simp
+                        · cases hs1
+                      · cases hs1; rfl
+                  · simp only [hc, if_false, Bool.false_eq_true] at hs1
+                    cases hs1; rfl
+                · simp only; rw [d2, p1 x _ h1 h3, w7 x _ h1 h2]; simp [h1, h3]
+              · intro x d hd
+                simp only; rw [d4]; simp [hd]
+              · intro x h1 h2
+                simp only; rw [d4]; simp [h1, h2]
+
+/-- a market bid that closes the auction, from a state satisfying the ledger invariant: its shape and the invariant afterwards -/
+theorem bidE_close {e : Env} {s s' : St} {who : Nat} {amt dt : Int} (hw : WfEnv e) (hi : Inv e s) (hdt : 0 ≤ dt)
+    (h : bidE e s who amt dt = .ok s') (hc : s'.auc = none) :
+    Inv e s' ∧ ∃ s2 s3, distribute e s2 = .ok s3 ∧
+      s2.burned = s.burned ∧ s2.netFees = s.netFees ∧ s2.extFees = s.extFees ∧ s2.booked = s.booked ∧
+      (∀ x d, x ≠ Acct.auction → x ≠ Acct.reserve → x ≠ Acct.bidder who → s2.bank.get x d = s.bank.get x d) ∧
+      (∀ x, x ≠ Acct.auction → x ≠ Acct.bidder who → s2.bank.get x .coll = s.bank.get x .coll) ∧
+      s'.burned = s3.burned ∧ s'.netFees = s3.netFees ∧ s'.extFees = s3.extFees ∧ s'.booked = s3.booked ∧
+      (∀ x d, d ≠ Denom.coll → s'.bank.get x d = s3.bank.get x d) ∧
+      (∀ x, x ≠ Acct.auction → x ≠ Acct.owner → s'.bank.get x .coll = s3.bank.get x .coll) := by
+  have h0 := h
+  unfold bidE at h
+  split at h
+  · cases h
+  · split at h
+    · cases h
+    · rename_i a ha
+      have hinv := placeBid_inv hw hi ha hdt h
+      unfold placeBid at h
+      split at h
+      · rename_i p hp
+        obtain ⟨_, _, _, _, o5, o6, _⟩ := hi.open_ a ha
+        have hpo := plan_ok hp o5 (debtPrice_nonneg e dt hdt) hw.decD_pos o6 hw.decC_pos
+        have hcl : p.close = true := by
+          by_cases hcl : p.close = true
+          · exact hcl
+          · obtain ⟨_, _, _, _, _, _, m7⟩ := apply_moves hpo h
+            have := m7 (by simpa using hcl)
+            rw [this] at hc; cases hc
+        exact ⟨hinv, apply_close_shape hpo hcl h⟩
+      · cases h
+
 /-! ### the posted price -/
 
 /-- two conversions at one posted price hand out at most one unit more than the exact quotient, provided the two
